@@ -17,6 +17,7 @@ import signal
 import numpy as np
 
 import repex_tie as T
+from props import c05_cv as CV
 
 
 class Stall(Exception):
@@ -49,6 +50,8 @@ class C05Sim(_OrigSim):
         self.treat_no = 0
         self._swaps = 0
         self._in_sort = False
+        self._w_before = None
+        self.sort_by_op = {}      # index of the treat line -> (weight matrix before sort_trajstate, swaps it made)
         st, sim = self.st, self
         orig_swap, orig_sort = st.swap, st.sort_trajstate
 
@@ -62,6 +65,7 @@ class C05Sim(_OrigSim):
 
         def bounded_sort():
             sim._in_sort, sim._swaps = True, 0
+            sim._w_before = [[float(x) for x in r] for r in st.state]
             try:
                 return orig_sort()
             finally:
@@ -72,6 +76,7 @@ class C05Sim(_OrigSim):
 
     def op_treat(self, md, status, new_weights):
         md = super().op_treat(md, status, new_weights)
+        self.sort_by_op[len(self.lines) - 1] = (self._w_before, self._swaps)
         self.treat_no += 1
         if self.load_every and self.treat_no % self.load_every == 0:
             self.check_restart_file()
@@ -275,6 +280,8 @@ def one(ctx, params, with_model, outs):
         return []
     sim.params = list(params)
     chain = sim.previous + [sim]
+    for sm in chain:
+        sm.params = list(params)
     try:
         predicates(ctx, chain, label)
         restart_loads(ctx, sim, label)
@@ -291,6 +298,9 @@ def one(ctx, params, with_model, outs):
 
 
 # ----------------------------------------------------------------------------- crafted sort states (d)
+SORT_LOG = []     # (label, W before sort_trajstate, real swaps, n, model iterations | None) — judged by CV.judge_sort_log
+
+
 def sort_case(ctx, n_ens, rng, idx):
     """A crafted in-family, matchable state with MANY idle slots whose diagonal weight is zero (histories only
     ever produce one or two): every plus slot gets a staircase row valid in its own ensemble, some slots are
@@ -367,6 +377,9 @@ def sort_case(ctx, n_ens, rng, idx):
                     break
             if sorted(map(repr, after)) != sorted(map(repr, before)):
                 ctx.fail("C05:sort-not-a-permutation", "the (path, row) pairs after sorting are not those before", rep)
+        if err is None:
+            SORT_LOG.append((label, [r for (_pn, r) in before], int(getattr(sim, "_swaps", 0)), n_ens + 1, None,
+                             ["sort", n_ens, idx]))
         ctx.count(1, branch="crafted-sort", bad=str(min(n_bad, 4)) + ("+" if n_bad > 4 else ""))
         ctx.distinct(("sort", repr(before), tuple(locks_before)))
     except Stall as e:
@@ -658,9 +671,14 @@ def run(ctx):
             plans.append((n_ens, w, 8, 0, False, (), 1.0, True, True, 0, True))
             plans.append((n_ens, w, 8, 0, False, (2,), 1.0, True, True, 1, True))
     outs = []
+    del SORT_LOG[:]
+    chains = []
     for p in plans:
         extra = (p[9] if len(p) > 9 else 0, p[10] if len(p) > 10 else False)
-        one(ctx, tuple(p[:7]) + (None, p[8] if len(p) > 8 else False) + extra, p[7] and ctx._driver_ok, outs)
+        with_model = p[7] and ctx._driver_ok
+        ch = one(ctx, tuple(p[:7]) + (None, p[8] if len(p) > 8 else False) + extra, with_model, outs)
+        if not with_model:
+            chains += [(sm, "history " + str(list(p[:7]))) for sm in ch]
     # (c) restart files with cstep 0
     for n_ens in (2, 3, 4):
         for w in range(1, n_ens):
@@ -673,9 +691,22 @@ def run(ctx):
             sort_case(ctx, n_ens, rng, idx)
     for sm, label in outs:
         try:
-            T.compare(ctx, sm, ctx.driver(sm.lines), label)
+            mo = ctx.driver(sm.lines)
+            T.compare(ctx, sm, mo, label)
+            # the number of while-iterations of sort_trajstate: model answer of every treat line vs the real swap count
+            for i, (wb, swaps) in getattr(sm, "sort_by_op", {}).items():
+                m = mo[i].split("sortiters=")
+                SORT_LOG.append((label + f" op {i}", wb, swaps, sm.n, int(m[1]) if len(m) == 2 and m[1].isdigit() else None,
+                                 getattr(sm, "params", None)))
         except Exception as e:  # noqa: BLE001
             ctx.disagree({"history": label}, "real run recorded", f"comparison raised {type(e).__name__}: {e}")
+    for sm, label in chains:
+        for i, (wb, swaps) in getattr(sm, "sort_by_op", {}).items():
+            SORT_LOG.append((label + f" op {i}", wb, swaps, sm.n, None, getattr(sm, "params", None)))
+    CV.judge_sort_log(ctx, [e for e in SORT_LOG if e[1] is not None])
+    # calc_cv_vector and load_paths on order sequences (wire fencing included)
+    CV.run_cv(ctx)
+    CV.run_load(ctx, C05Sim)
     if outs:
         sm = outs[-1][0]
         ctx.sample({"history": outs[-1][1], "snapshot": {k: sm.snaps[-1][1][k] for k in ("W", "trajs", "locks", "trajnum")}})
@@ -690,26 +721,42 @@ def run(ctx):
         "fed as outcomes: the unchanged inf_retis rejects most such states with its own row-sum assertion (C02's family) "
         "and sort_trajstate can loop on them; they are outside the family the property names",
         "restart-file loading is exercised by really rebuilding REPEX_state from the written restart.toml at the restart points",
+        "order sequences fed to calc_cv_vector / load_paths are integer-valued (exact in floats); the condition `noJumpCfg` "
+        "(Infretis.C05.cv_vector_family_of_no_jump) is restated in Python and compared with the Lean definition on every case; "
+        "paths that violate it (holes possible) are run and counted but only judged for model/code agreement",
+        "load_paths: the model (`loadPathsCv`) does not evaluate P at the end of add_traj (`self.prob` is a pure function "
+        "there); in-family the real evaluation never raised in any run (tie), with a hole vector among the initial paths it "
+        "can fail inf_retis' row-sum assertion: reported under the open finding C05:hole-weight-vector:prob-assertion",
+        "every real sort_trajstate call of every history is held against the proved bound: swaps <= sortMeasure(W before) <= n*n "
+        "(measure computed by the Lean definition through the driver), and against the model's iteration count",
     ]
 
 
 def replay(ctx, obj):
     r = obj.get("replay", {})
-    if not r.get("params"):
+    if not r.get("params") and r.get("what") not in ("calc_cv_vector", "load_paths"):
         print("no history parameters in this replay file:", r)
         return 1
     ctx.seed = r.get("ctxseed", ctx.seed)
-    ps = r["params"]
+    ps = r.get("params") or []
     if ps and ps[0] == "hole":
         out = hole_witness(ctx, ps[1], report=False)
         print("hole witness outcome:", out, "(expected", ps[1].get("expect"), ")")
         return 1 if out == ps[1].get("expect") else 0
-    if ps and ps[0] == "sort":
+    if r.get("what") == "calc_cv_vector":
+        CV.run_cv(ctx, [(r["interfaces"], r["wf"], r["cap"], r["ops"], "replay")])
+    elif r.get("what") == "load_paths":
+        CV.run_load(ctx, C05Sim, [(0, r["interfaces"], r["wf"], r["cap"], r["paths"])])
+    elif ps and ps[0] == "sort":
+        del SORT_LOG[:]
         sort_case(ctx, int(ps[1]), ctx.rng, int(ps[2]))
+        CV.judge_sort_log(ctx, [e for e in SORT_LOG if e[1] is not None])
     elif ps and ps[0] == "cstep0":
         cstep0_restart(ctx, int(ps[1]), int(ps[2]), int(ps[3]), int(ps[4]), False, [])
     else:
-        one(ctx, tuple(ps), False, [])
+        ch = one(ctx, tuple(ps), False, [])
+        CV.judge_sort_log(ctx, [("replay", wb, sw, sm.n, None, list(ps)) for sm in ch
+                                for (wb, sw) in getattr(sm, "sort_by_op", {}).values() if wb is not None])
     for f in ctx.fails:
         print("still fails:", f["signature"], f["what"])
     return 1 if ctx.fails else 0
